@@ -59,10 +59,15 @@ class SchemaInfo:
     """classes: list of Symbol classes (class id = position); fields: list of (class id, attr name);
     role_attr: class id -> name of the role-taker attribute; ctor: class id -> callable(index, role_taker) -> obj"""
 
-    def __init__(self, tag, classes, fields, role_attr, ctor, targets):
+    def __init__(self, tag, classes, fields, role_attr, ctor, targets, also=None):
         self.tag = tag
         self.classes = classes
         self.fields = fields
+        # field id -> further (class id, attr name) attachments of the SAME descriptor class on unrelated classes
+        self.also = also or {}
+        # class id -> ids of its strict super classes among the schema's classes (managed fields are inherited)
+        self.parents = {i: [j for j, d in enumerate(classes) if j != i and issubclass(c, d)]
+                        for i, c in enumerate(classes)}
         self.role_attr = role_attr
         self.ctor = ctor
         self.targets = targets  # field id -> list of class ids admissible as asserted targets
@@ -87,6 +92,33 @@ class SchemaInfo:
         self.trans = [i for i, p in enumerate(self.props) if issubclass(p, TransitiveProperty)]
         self.field_index = {(classes[c], name): i for i, (c, name) in enumerate(fields)}
 
+    def attachments(self, f: int):
+        return [self.fields[f]] + list(self.also.get(f, []))
+
+    def isa(self, c: int, d: int) -> bool:
+        return c == d or d in self.parents[c]
+
+    def applies(self, f: int, c: int) -> bool:
+        return any(self.isa(c, d) for d, _ in self.attachments(f))
+
+    def attr(self, f: int, c: int) -> str:
+        """the attribute name of field `f` on instances of class `c`"""
+        for d, name in self.attachments(f):
+            if self.isa(c, d):
+                return name
+        raise KeyError((f, c))
+
+    def label(self, relation) -> int:
+        """the field a relation belongs to: identified by its descriptor CLASS and the class of its source (the
+        wrapped field of an inferred relation on a subclass instance is owned by the subclass; the property does not
+        distinguish such variants)"""
+        p = type(relation.wrapped_field.property_descriptor)
+        src = relation.source.instance
+        for f in range(len(self.fields)):
+            if type(self.desc[f]) is p and any(isinstance(src, self.classes[d]) for d, _ in self.attachments(f)):
+                return f
+        return 10 ** 6
+
     def _kind(self, i) -> str:
         from typing import get_type_hints  # noqa: F401
         d = self.desc[i]
@@ -100,12 +132,18 @@ class SchemaInfo:
         return "set" if str(s).lstrip().startswith(("Set", "set", "typing.Set")) else "list"
 
     def sexp(self) -> str:
-        fs = " ".join(f"({c} {self.props.index(type(self.desc[i]))} {self.kinds[i]})"
+        def dom(i, c):
+            more = [d for d, _ in self.also.get(i, [])]
+            return f"({c} {' '.join(map(str, more))})" if more else str(c)
+
+        fs = " ".join(f"({dom(i, c)} {self.props.index(type(self.desc[i]))} {self.kinds[i]})"
                       for i, (c, _) in enumerate(self.fields))
+        par = " ".join(f"({c} {' '.join(map(str, a))})" for c, a in self.parents.items() if a)
         sup = " ".join(f"({p} {' '.join(map(str, a))})" if a else f"({p})" for p, a in self.supers.items())
         inv = " ".join(f"({p} {q})" for p, q in self.inverse.items())
         tr = " ".join(map(str, self.trans))
-        return f"(schema {self.tag}) (fields {fs}) (supers {sup}) (inv {inv}) (trans {tr})"
+        return (f"(schema {self.tag}) (fields {fs}) (supers {sup}) (inv {inv}) (trans {tr})"
+                + (f" (parents {par})" if par else ""))
 
 
 def _load_university():
@@ -433,6 +471,87 @@ def _declare_v():
     return info
 
 
+def _declare_h():
+    """domain classes in a SUBCLASS hierarchy and one transitive descriptor class attached to two unrelated classes:
+    Place <- City <- Metropolis, and Region. LocatedIn (transitive, inverse Contains) is declared on Place AND on
+    Region; CapitalOf < LocatedIn lives on City, SeatOf < CapitalOf (single-valued) on Metropolis. Relations inferred
+    on a City / Metropolis instance carry the subclass' wrapped field, asserted ones the declaring class' - they
+    must chain all the same."""
+    from dataclasses import dataclass, field
+    from typing_extensions import List, Set
+    from krrood.entity_query_language.predicate import Symbol
+    from krrood.ontomatic.property_descriptor.mixins import HasInverseProperty, TransitiveProperty
+    from krrood.ontomatic.property_descriptor.property_descriptor import PropertyDescriptor
+
+    g = sys.modules[__name__].__dict__
+
+    @dataclass(eq=False)
+    class PdPlace(Symbol):
+        idx: int
+        located_in: List[PdPlace] = field(default_factory=list)
+        contains: Set[PdPlace] = field(default_factory=set)
+
+        def __hash__(self):
+            return self.idx
+
+    @dataclass(eq=False)
+    class PdCity(PdPlace):
+        capital_of: List[PdPlace] = field(default_factory=list)
+
+        def __hash__(self):
+            return self.idx
+
+    @dataclass(eq=False)
+    class PdMetropolis(PdCity):
+        seat_of: PdPlace = None
+
+        def __hash__(self):
+            return self.idx
+
+    @dataclass(eq=False)
+    class PdRegion(Symbol):
+        idx: int
+        located_in: List[PdPlace] = field(default_factory=list)
+        contains: Set[PdPlace] = field(default_factory=set)
+
+        def __hash__(self):
+            return self.idx
+
+    g.update(PdPlace=PdPlace, PdCity=PdCity, PdMetropolis=PdMetropolis, PdRegion=PdRegion)
+
+    @dataclass
+    class LocatedIn(PropertyDescriptor, TransitiveProperty, HasInverseProperty):
+        @classmethod
+        def get_inverse(cls):
+            return Contains
+
+    @dataclass
+    class Contains(PropertyDescriptor, TransitiveProperty, HasInverseProperty):
+        @classmethod
+        def get_inverse(cls):
+            return LocatedIn
+
+    @dataclass
+    class CapitalOf(LocatedIn): ...
+
+    @dataclass
+    class SeatOf(CapitalOf): ...
+
+    PdPlace.located_in = LocatedIn(PdPlace, "located_in")
+    PdPlace.contains = Contains(PdPlace, "contains")
+    PdRegion.located_in = LocatedIn(PdRegion, "located_in")
+    PdRegion.contains = Contains(PdRegion, "contains")
+    PdCity.capital_of = CapitalOf(PdCity, "capital_of")
+    PdMetropolis.seat_of = SeatOf(PdMetropolis, "seat_of")
+    classes = [PdPlace, PdCity, PdMetropolis, PdRegion]
+    fields = [(0, "located_in"), (0, "contains"), (1, "capital_of"), (2, "seat_of")]
+    also = {0: [(3, "located_in")], 1: [(3, "contains")]}
+    targets = {f: [0, 1, 2, 3] for f in range(4)}
+    ctor = {0: lambda i, rt: PdPlace(i), 1: lambda i, rt: PdCity(i), 2: lambda i, rt: PdMetropolis(i),
+            3: lambda i, rt: PdRegion(i)}
+    return SchemaInfo("H", classes, fields, {}, ctor, targets, also)
+
+
 def _declare_u():
     m = _load_university()
     classes = [m.Person, m.Company, m.CEO]
@@ -446,7 +565,7 @@ def _declare_u():
 def schema(tag: str) -> SchemaInfo:
     """declare (once per process) and describe a schema; needs krrood importable"""
     if tag not in _SCHEMAS:
-        _SCHEMAS[tag] = {"U": _declare_u, "D": _declare_d, "L": _declare_l, "V": _declare_v}[tag]()
+        _SCHEMAS[tag] = {"U": _declare_u, "D": _declare_d, "L": _declare_l, "V": _declare_v, "H": _declare_h}[tag]()
     return _SCHEMAS[tag]
 
 
@@ -460,23 +579,38 @@ def _fresh_graph():
     return SymbolGraph()
 
 
-def build_world(info: SchemaInfo, objs) -> List[Any]:
+def build_world(info: SchemaInfo, objs, late=()) -> List[Any]:
+    """`late`: indices of instances that are created only when the history says so"""
     out: List[Any] = []
     for i, (c, rt) in enumerate(objs):
         c = int(c)
-        out.append(info.ctor[c](i, out[int(rt)] if rt != "-" else None))
+        out.append(None if i in late else info.ctor[c](i, out[int(rt)] if rt != "-" else None))
     return out
 
 
+def make_at_dead_address(make, dead_ids, ballast, tries: int = 8):
+    """CPython hands freed addresses out again; which allocation gets one is an accident of the allocator. Create
+    instances until one lands on the address of a dead instance (the others stay alive, unrelated, unobserved)."""
+    cand = make()
+    for _ in range(tries):
+        if id(cand) in dead_ids:
+            dead_ids.discard(id(cand))
+            return cand
+        ballast.append(cand)
+        cand = make()
+    return cand
+
+
 def observe_relations(info: SchemaInfo, sg, objs) -> str:
-    oid = {id(o): i for i, o in enumerate(objs)}
+    oid = {id(o): i for i, o in enumerate(objs) if o is not None}
     rels = set()
     for r in sg.relations():
-        wf = r.wrapped_field
-        f = info.field_index.get((wf.clazz.clazz, wf.public_name), None)
+        if r.source.instance is None or r.target.instance is None:
+            continue  # a dead instance: the property speaks about live instances
+        f = info.label(r)
         s = oid.get(id(r.source.instance))
         t = oid.get(id(r.target.instance))
-        rels.add((f if f is not None else 10 ** 6, s if s is not None else 10 ** 6, t if t is not None else 10 ** 6))
+        rels.add((f, s if s is not None else 10 ** 6, t if t is not None else 10 ** 6))
     return "R[" + ",".join(f"{a}:{b}:{c}" for a, b, c in sorted(rels)) + "]"
 
 
@@ -488,13 +622,13 @@ def _idx(oid, v):
 
 
 def observe_fields(info: SchemaInfo, objs, classes_of) -> str:
-    oid = {id(o): i for i, o in enumerate(objs)}
+    oid = {id(o): i for i, o in enumerate(objs) if o is not None}
     items = []
-    for f, (c, name) in enumerate(info.fields):
+    for f in range(len(info.fields)):
         for o, oc in enumerate(classes_of):
-            if oc != c:
+            if objs[o] is None or not info.applies(f, oc):
                 continue
-            v = getattr(objs[o], name)
+            v = getattr(objs[o], info.attr(f, oc))
             if info.kinds[f] == "single":
                 items.append(f"{f}.{o}=" + ("" if v is None else str(_idx(oid, v))))
             else:
@@ -509,11 +643,30 @@ def run_c15_line(line: str) -> str:
         info = schema(field_of(items, "schema")[0])
         sg = _fresh_graph()
         objs_spec = field_of(items, "objs")
-        objs = build_world(info, objs_spec)
+        ops = field_of(items, "ops")
+        late = {int(op[1]) for op in ops if op[0] in ("new", "kill")}
+        objs = build_world(info, objs_spec, late)
         classes_of = [int(c) for c, _ in objs_spec]
-        for op in field_of(items, "ops"):
+        dead_ids, ballast = set(), []
+        for op in ops:
+            if op[0] == "kill":      # a short-lived instance without relations: created here and discarded at once
+                i = int(op[1])           # (no collection in between: CPython hands its address to the next instance)
+                c, rt = objs_spec[i]
+                x = info.ctor[int(c)](i, objs[int(rt)] if rt != "-" else None)
+                dead_ids.add(id(x))
+                del x
+                continue
+            if op[0] == "new":       # ... and a new one is created at the address of a dead one, as CPython does
+                i = int(op[1])
+                c, rt = objs_spec[i]
+                objs[i] = make_at_dead_address(
+                    lambda: info.ctor[int(c)](i, objs[int(rt)] if rt != "-" else None), dead_ids, ballast)
+                continue
+            if op[0] == "sweep":     # what every query evaluation does first
+                sg.remove_dead_instances()
+                continue
             kind, f, src = op[0], int(op[1]), objs[int(op[2])]
-            name = info.fields[f][1]
+            name = info.attr(f, classes_of[int(op[2])])
             if kind == "set":
                 setattr(src, name, objs[int(op[3])])
             elif kind == "add":
@@ -629,13 +782,24 @@ def run_c16_line(line: str) -> str:
             info.case_keys = [int(k) for k in (field_of(items, "keys") or [])]
         if s[0] == "w2":
             return _run_two(info, sg, items, objs_spec, f, name, is_set)
-        objs = build_world(info, objs_spec)
+        ops = field_of(items, "ops")
+        late = {int(op[1]) for op in ops if op[0] == "fresh"}
+        objs = build_world(info, objs_spec, late)
         a = objs[int(field_of(items, "obj")[0])]
         for x in field_of(items, "init") or []:
             c = getattr(a, name)
             (c.add if is_set else c.append)(objs[int(x)])
         status = "ok"
-        for op in field_of(items, "ops"):
+        dead_ids, ballast = set(), []
+        for op in ops:
+            if op[0] == "drop":     # the program forgets an element that is no longer in the field: it dies at once
+                dead_ids.add(id(objs[int(op[1])]))
+                objs[int(op[1])] = None
+                continue
+            if op[0] == "fresh":    # a new element is created; CPython gives it a freed address
+                i = int(op[1])
+                objs[i] = make_at_dead_address(lambda: info.ctor[int(objs_spec[i][0])](i, None), dead_ids, ballast)
+                continue
             try:
                 _apply_cop(a, name, is_set, op, objs)
             except ValueError:
@@ -643,7 +807,7 @@ def run_c16_line(line: str) -> str:
             except Exception as e:  # noqa: BLE001
                 status = "exc:" + type(e).__name__
                 break
-        oid = {id(o): i for i, o in enumerate(objs)}
+        oid = {id(o): i for i, o in enumerate(objs) if o is not None}
         out = "C" + _contents(oid, a, name, is_set) + "|" + observe_relations(info, sg, objs)
         if status != "ok":
             out += "|" + status
@@ -681,7 +845,7 @@ def _run_two(info, sg, items, objs_spec, f, name, is_set) -> str:
     rels = set()
     for r in sg.relations():
         wf = r.wrapped_field
-        ff = info.field_index.get((wf.clazz.clazz, wf.public_name), 10 ** 6)
+        ff = info.label(r)
         rels.add((ff, oid.get(id(r.source.instance), 10 ** 6), oid.get(id(r.target.instance), 10 ** 6)))
     out += "|R[" + ",".join(f"{x}:{y}:{z}" for x, y, z in sorted(rels)) + "]"
     del objs, live
@@ -744,4 +908,6 @@ def _describe(tag: str):
     use_repo_sources()
     info = schema(tag)
     return {"sexp": info.sexp(), "kinds": info.kinds, "fields": info.fields, "targets": info.targets,
-            "role_cls": list(info.role_attr.keys()), "nclasses": len(info.classes)}
+            "role_cls": list(info.role_attr.keys()), "nclasses": len(info.classes),
+            "applies": {f: [c for c in range(len(info.classes)) if info.applies(f, c)]
+                        for f in range(len(info.fields))}}
